@@ -49,6 +49,13 @@ class World:
             model.delete_agent(op["id"])
         elif kind == "delete_many":
             model.delete_agents(list(op["ids"]))
+        elif kind == "delete_then_touch":
+            # the caller keeps the object, deletes the agent and then still writes to the object (agent code that marks itself
+            # "dead" after removing itself does this): the registry only knows live agents
+            obj = model.agent(op["id"])
+            model.delete_agent(op["id"])
+            if obj is not None:
+                obj.state = op["state"]
         elif kind == "delete_type":
             # the caller hands the registry's OWN id list back to delete_agents
             model.delete_agents(model.agent_ids(op["type"]))
